@@ -49,6 +49,7 @@ type RunSpec struct {
 	Informational []string          `json:"informational"`
 	TwoRun        string            `json:"two_run"`      // obligation id prefix: run the harness in two-run non-interference mode (sym/tworun.go)
 	TwoRunOnly    bool              `json:"two_run_only"` // keep only the two-run obligations
+	MapReverse    bool              `json:"map_reverse"`  // iterate maps with concrete keys in descending key order (order-independence runs)
 }
 
 type Spec struct {
@@ -76,7 +77,8 @@ type StubSpec struct {
 	Func    string `json:"func"`
 	Input   string `json:"input"`
 	Kind    string `json:"kind"`
-	Returns string `json:"returns"` // "input" (default), "zero" or "error"
+	Returns string `json:"returns"` // "input" (default), "zero", "error", "float-by-arg", "bytes-by-arg", "floats", "bool-nil", "call"
+	Target  string `json:"target"`  // returns == "call": harness function (same signature) that models the stubbed function and is executed symbolically instead
 	Log     bool   `json:"log"`     // record each call as an event that the harness can count (vCalls)
 }
 
@@ -558,6 +560,7 @@ func runInstance(ld *sym.Loaded, spec *Spec, rs *RunSpec, args []int64, known ma
 		e.MaxSymLen = spec.MaxSymLen
 	}
 	installStubs(e, spec, rs.NoStubs)
+	e.MapReverse = rs.MapReverse
 	if rs.Unwind > 0 {
 		e.Unwind = rs.Unwind
 	}
@@ -583,6 +586,9 @@ func runInstance(ld *sym.Loaded, spec *Spec, rs *RunSpec, args []int64, known ma
 	res.execSecs = time.Since(t0).Seconds()
 	res.blocks, res.edges, res.merges, res.terms = e.BlocksExec, e.EdgesExec, e.Merges, e.S.NumTerms()
 	res.funcs, res.stubs, res.floatSites, res.ufs, res.inputs = e.FuncsSeen, e.Stubs, e.FloatSites, e.UFUsed, len(e.Inputs)
+	if err == nil && e.InitIncomplete != "" {
+		err = &sym.UnsupportedErr{Msg: "package initialiser not executed completely: " + e.InitIncomplete}
+	}
 	if err != nil {
 		res.err = err
 		return res
@@ -891,6 +897,13 @@ func installStubs(e *sym.Exec, spec *Spec, off []string) {
 					if sp.Returns == "zero" {
 						return ex.ZeroResults(fn), true
 					}
+					if sp.Returns == "call" {
+						tf := ex.Pkg.Func(sp.Target)
+						if tf == nil {
+							panic(&sym.UnsupportedErr{Msg: "stub target " + sp.Target + " not found"})
+						}
+						return ex.CallFunction(st, tf, args, nil, where), true
+					}
 					if sp.Returns == "error" {
 						return ex.NondetError(sp.Input), true
 					}
@@ -930,6 +943,7 @@ func interpReplay(ld *sym.Loaded, spec *Spec, rs *RunSpec, args []int64, vals ma
 	e.DecSegs = spec.DecSegs
 	e.Concrete = vals
 	e.TwoRun, e.TwoRunOnly = rs.TwoRun, rs.TwoRunOnly
+	e.MapReverse = rs.MapReverse
 	if rs.Unwind > 0 {
 		e.Unwind = rs.Unwind
 	}
